@@ -72,7 +72,7 @@ theorem readonly_step (f : FsCfg) (hro : f.readOnly = true) (w0 : World) (s : Sy
     case lstat n => exact ⟨by rw [Sys.run_w]; exact (lstat_ro hst _).run _ hw, by unfold Sys.run; split <;> exact hh⟩
     case readlink n => exact ⟨by rw [Sys.run_w]; exact (readlink_ro hst _).run _ hw, by unfold Sys.run; split <;> exact hh⟩
     case cat n =>
-      exact ⟨by rw [Sys.run_w]; exact (cat_pres' hst env hm n).run _ hw, by unfold Sys.run; split <;> exact hh⟩
+      exact ⟨by rw [Sys.run_w]; exact (cat_pres' hst (fun w h => h) env hm n).run _ hw, by unfold Sys.run; split <;> exact hh⟩
     case openFile id n flag perm =>
       have hp := (openFile_pres' hst env hm n flag perm).run _ hw
       have hf := openFile_flags f env n flag perm s.w
@@ -177,14 +177,24 @@ theorem readonly_step (f : FsCfg) (hro : f.readOnly = true) (w0 : World) (s : Sy
 theorem readonly_initialize_keeps_tape (f : FsCfg) (hro : f.readOnly = true) (s : Sys) (env : Env) (r : Name) (p : Int) :
     (s.step f env (.init r p)).1.w.tape = s.w.tape := by
   simp only [Sys.step, Sys.run_w]
-  have hs : RowStable (fun w : World => w.tape = s.w.tape) := fun w p _ h => h
-  have : Pres (fun w : World => w.tape = s.w.tape) (initFs f env r p) := by
-    unfold initFs
-    repeat (first
-      | (rw [mkdirRoot_denied hro]; exact Pres.fail _)
-      | with_reducible exact Pres.op (fun w hw => by unfold rebuildOp; exact hw)
-      | pres_step)
-  exact this.run _ rfl
+  unfold initFs
+  rcases hg : s.w.idx.getRootPath with ⟨q, res⟩
+  cases res with
+  | ok root => rfl
+  | error e =>
+    cases e <;> try rfl
+    simp only
+    split
+    · rfl
+    · split
+      · rw [mkdirRoot_denied hro]; rfl
+      · rcases hrb : rebuildOp f { tape := s.w.tape, idx := q, stuck := s.w.stuck } with ⟨w2, e2⟩
+        have ht : w2.tape = s.w.tape := by
+          have := congrArg (fun x => x.1.tape) hrb
+          simpa [rebuildOp] using this.symm
+        cases e2 with
+        | none => exact ht
+        | some e => rw [mkdirRoot_denied hro]; exact ht
 
 /-- (4) Histories: any history without `Initialize` on a read-only instance leaves tape, table
     and drive state as they were. -/
